@@ -49,12 +49,12 @@ type corrMember struct {
 	pol   bool // truth of the class condition on successor edge 0
 }
 
-const corrMaxPhis = 12
+const corrMaxPhis = 32
 
 // pathFacts: what a path has established so far: the truth of the condition classes (two bits per class) and, for the
 // tracked phis, through which incoming edge the path last entered the phi's block (index+1; 0 unknown).
 type pathFacts struct {
-	bits   uint32
+	bits   uint64
 	sel    [corrMaxPhis]int8
 	passed bool // the path has taken the edge PathQ.MustEdge
 }
@@ -66,14 +66,17 @@ type corrInfo struct {
 	tphis      []*ssa.Phi                 // phis some of whose incoming values are constants and that decide branches
 	tphiIdx    map[*ssa.Phi]int
 	tphiBlocks map[*ssa.BasicBlock][]int
-	valClass   map[ssa.Value]int // value -> class "this value is non-nil" (values carried by tracked phis)
-	cur        *pathFacts        // the facts of the path being extended (set by CanReach around the goal callback)
-	at         *ssa.BasicBlock   // the block whose terminating test is being evaluated (set by CanReach around evalCond)
+	valClass   map[ssa.Value]int          // value -> class "this value is non-nil" (values carried by tracked phis)
+	liveSel    map[*ssa.BasicBlock]uint32 // tracked phis whose record can still be consulted from this block on
+	liveVal    map[*ssa.BasicBlock]uint32 // value classes (valClass) whose fact can still be consulted from this block on
+	valMask    uint32                     // the classes that are value classes
+	cur        *pathFacts                 // the facts of the path being extended (set by CanReach around the goal callback)
+	at         *ssa.BasicBlock            // the block whose terminating test is being evaluated (set by CanReach around evalCond)
 }
 
 var corrCache = map[*ssa.Function]*corrInfo{}
 
-const corrMaxClasses = 16
+const corrMaxClasses = 32
 
 func corrOf(f *ssa.Function) *corrInfo {
 	if ci, ok := corrCache[f]; ok {
@@ -384,9 +387,9 @@ func buildCorr(f *ssa.Function) *corrInfo {
 }
 
 // facts: two bits per class: 0 unknown, 1 false, 2 true.
-func corrGet(facts uint32, class int) uint32 { return (facts >> (2 * uint(class))) & 3 }
+func corrGet(facts uint64, class int) uint64 { return (facts >> (2 * uint(class))) & 3 }
 
-func corrSet(facts uint32, class int, val bool) uint32 {
+func corrSet(facts uint64, class int, val bool) uint64 {
 	facts &^= 3 << (2 * uint(class))
 	if val {
 		return facts | 2<<(2*uint(class))
@@ -394,7 +397,7 @@ func corrSet(facts uint32, class int, val bool) uint32 {
 	return facts | 1<<(2*uint(class))
 }
 
-func corrClear(facts uint32, mask uint32) uint32 {
+func corrClear(facts uint64, mask uint32) uint64 {
 	for i := 0; mask != 0; i, mask = i+1, mask>>1 {
 		if mask&1 != 0 {
 			facts &^= 3 << (2 * uint(i))
@@ -568,6 +571,91 @@ func (ci *corrInfo) trackPhis(f *ssa.Function) {
 				ci.valClass[v] = cl
 			}
 		}
+	}
+	ci.liveness(f)
+}
+
+// liveness: a tracked phi's record is consulted only where the phi, or a tracked phi that (through its incoming values)
+// depends on it, is in scope: in the blocks its block dominates. A path that leaves those blocks cannot come back to a
+// consumer without entering the phi's block again, which overwrites the record; so the record is dropped there — nothing
+// is lost, and paths that differ only in what they did in an earlier loop iteration or a finished branch fall together.
+// The same holds for the nil-ness of a value defined in the function and carried by tracked phis.
+func (ci *corrInfo) liveness(f *ssa.Function) {
+	ci.liveSel = map[*ssa.BasicBlock]uint32{}
+	ci.liveVal = map[*ssa.BasicBlock]uint32{}
+	if len(ci.tphis) == 0 {
+		return
+	}
+	type dep struct {
+		phis uint32
+		vals uint32
+	}
+	deps := make([]dep, len(ci.tphis))
+	var walk func(v ssa.Value, d *dep, seen map[ssa.Value]bool, depth int)
+	walk = func(v ssa.Value, d *dep, seen map[ssa.Value]bool, depth int) {
+		if v == nil || seen[v] || depth > 14 {
+			return
+		}
+		seen[v] = true
+		if cl, ok := ci.valClass[v]; ok {
+			d.vals |= 1 << uint(cl)
+		}
+		switch x := v.(type) {
+		case *ssa.Phi:
+			if j, ok := ci.tphiIdx[x]; ok {
+				d.phis |= 1 << uint(j)
+			}
+			for _, e := range x.Edges {
+				walk(e, d, seen, depth+1)
+			}
+		case *ssa.ChangeType:
+			walk(x.X, d, seen, depth+1)
+		case *ssa.Convert:
+			walk(x.X, d, seen, depth+1)
+		case *ssa.MakeInterface:
+			walk(x.X, d, seen, depth+1)
+		case *ssa.UnOp:
+			walk(x.X, d, seen, depth+1)
+		case *ssa.BinOp:
+			walk(x.X, d, seen, depth+1)
+			walk(x.Y, d, seen, depth+1)
+		case *ssa.Call:
+			for _, a := range x.Call.Args {
+				walk(a, d, seen, depth+1)
+			}
+		}
+	}
+	for j, p := range ci.tphis {
+		walk(p, &deps[j], map[ssa.Value]bool{}, 0)
+		deps[j].phis |= 1 << uint(j)
+	}
+	for _, cl := range ci.valClass {
+		ci.valMask |= 1 << uint(cl)
+	}
+	valDef := map[int]*ssa.BasicBlock{}
+	valAlways := uint32(0)
+	for v, cl := range ci.valClass {
+		if in, ok := v.(ssa.Instruction); ok && in.Parent() == f && in.Block() != nil {
+			valDef[cl] = in.Block()
+		} else {
+			valAlways |= 1 << uint(cl)
+		}
+	}
+	for _, b := range f.Blocks {
+		var ls, lv uint32
+		for j, p := range ci.tphis {
+			if p.Block().Dominates(b) {
+				ls |= deps[j].phis
+				lv |= deps[j].vals
+			}
+		}
+		for cl, db := range valDef {
+			if db.Dominates(b) {
+				lv |= 1 << uint(cl)
+			}
+		}
+		ci.liveSel[b] = ls
+		ci.liveVal[b] = lv | valAlways
 	}
 }
 
@@ -820,4 +908,50 @@ func (c *Ctx) nonNilOnAllPaths(f *ssa.Function, v ssa.Value, at ssa.Instruction)
 		return false
 	}, PathQ{})
 	return ok && reached
+}
+
+// leafOn: v followed through the tracked phis whose entering edge the path st has recorded (and through type changes).
+func (ci *corrInfo) leafOn(v ssa.Value, st *pathFacts) ssa.Value {
+	for depth := 0; depth < 12; depth++ {
+		switch x := v.(type) {
+		case *ssa.ChangeType:
+			v = x.X
+			continue
+		case *ssa.Phi:
+			if j, ok := ci.tphiIdx[x]; ok && st.sel[j] > 0 && int(st.sel[j])-1 < len(x.Edges) {
+				e := x.Edges[st.sel[j]-1]
+				if q, isPhi := e.(*ssa.Phi); isPhi && q.Block() == x.Block() {
+					return v
+				}
+				v = e
+				continue
+			}
+		}
+		break
+	}
+	return v
+}
+
+// valuesAlong: the values v denotes at instruction `at` on the paths from the function's entry that take edge e, each
+// followed through the joins whose entering edge the path determines.
+func valuesAlong(f *ssa.Function, e ifEdge, at ssa.Instruction, v ssa.Value, stop func(ssa.Instruction) bool) (vals []ssa.Value, reached bool) {
+	ci := corrOf(f)
+	seen := map[ssa.Value]bool{}
+	q := PathQ{MustEdge: &e, BlockInstr: stop}
+	canReachFrom(f, nil, nil, -1, func(in ssa.Instruction) bool {
+		if in != at {
+			return false
+		}
+		reached = true
+		r := v
+		if ci.cur != nil {
+			r = ci.leafOn(v, ci.cur)
+		}
+		if !seen[r] {
+			seen[r] = true
+			vals = append(vals, r)
+		}
+		return false
+	}, q)
+	return vals, reached
 }
